@@ -328,7 +328,11 @@ def match_known(mod, known, case, key, detail):
     for ent in known:
         if ent.get('property') != mod.ID or ent.get('status') != 'open':
             continue
-        if ent.get('key') != key:
+        if 'key_re' in ent:
+            import re
+            if not re.fullmatch(ent['key_re'], key):
+                continue
+        elif ent.get('key') != key:
             continue
         pred = ent.get('predicate')
         if pred is None:
